@@ -50,6 +50,10 @@ COMPOSITES = [
     ["stack", {"reg": "lin"}, [["naive", {"strategy": "last"}], ["poly", {"degree": 1}]]],
     ["grid", {"grid": {"strategy": ["last", "mean"]}, "cv": ["sliding", {"fh": [1], "window_length": 8, "step_length": 4}], "scoring": None}, ["naive", {}]],
     ["online", {}, [["naive", {"strategy": "last"}], ["naive", {"strategy": "mean", "window_length": 3}]]],
+    # members whose forecasts change when they are refitted (trend coefficients, mean over everything seen): parameter-keeping and
+    # parameter-updating runs differ visibly
+    ["online", {}, [["poly", {"degree": 1}], ["naive", {"strategy": "mean"}]]],
+    ["ensemble", {"aggfunc": "median"}, [["poly", {"degree": 2}], ["naive", {"strategy": "mean"}], ["naive", {"strategy": "drift"}]]],
 ]
 
 
